@@ -84,17 +84,19 @@ type Ctx struct {
 	slot []byte
 	seq  uint64
 
-	st       Stats
-	obs      map[uint64]struct{}
-	out      *bufio.Writer
-	outMu    sync.Mutex
-	valOut   *bufio.Writer // validation slice: (pass,input,cfg,hash) lines
-	valIn    map[string]uint64
-	valMode  bool
-	deadline time.Time
-	maxViol  int
-	curInput Input
-	curCfg   *Cfg
+	st         Stats
+	obs        map[uint64]struct{}
+	out        *bufio.Writer
+	outMu      sync.Mutex
+	valOut     *bufio.Writer // validation slice: (pass,input,cfg,hash) lines
+	valWritten int
+	valInputs  map[[2]int64]bool // validation mode: the inputs that have recorded units
+	valIn      map[string]uint64
+	valMode    bool
+	deadline   time.Time
+	maxViol    int
+	curInput   Input
+	curCfg     *Cfg
 
 	locating  bool
 	locCfg    int
@@ -255,12 +257,17 @@ func (x *Ctx) Validate(obs []byte) {
 		}
 		return
 	}
-	if x.valOut != nil && x.inputIdx%valSlice == 0 {
+	if x.valOut != nil && x.inputIdx%valSlice == 0 && x.valWritten < valCapPerWorker {
 		fmt.Fprintf(x.valOut, "%s %d\n", key, h)
+		x.valWritten++
 	}
 }
 
 const valSlice = 17
+
+// at most this many units per worker are handed to the conformance pass (the slice is taken from the start of every
+// worker's shard, in enumeration order, so it always contains the shallow states and a share of every pass it reaches)
+const valCapPerWorker = 40000
 
 func (x *Ctx) InValidationSlice() bool { return x.inputIdx%valSlice == 0 }
 
@@ -309,7 +316,7 @@ func (x *Ctx) runPasses(passes []*Pass) {
 					x.skipCfg = x.afterCfg
 				}
 			}
-			if x.valMode && !x.InValidationSlice() {
+			if x.valMode && (!x.InValidationSlice() || !x.valInputs[[2]int64{int64(pi), x.inputIdx}]) {
 				return
 			}
 			if !x.deadline.IsZero() && x.inputIdx%64 == int64(x.shard) && time.Now().After(x.deadline) {
